@@ -124,14 +124,25 @@ def run(ctx):
                                                          "samples": hs[:1]}, ["replay"], {"histories": hs})
 
     # 1. design check --------------------------------------------------------------------------
+    # exhaustive with at most 2 mutations per behaviour (both tiers: ~200 k states, every state costs ~25 ms because the
+    # successor relation enumerates zone assignments); 3 mutations do not finish in half an hour on 16 cores, so the
+    # thorough tier explores that configuration by random simulation for a bounded number of behaviours instead
     cfg = open(os.path.join(vlib.SPEC, "MC_MemAlloc.cfg")).read()
-    cfg = cfg.replace("MaxMut = 3", "MaxMut = %d" % (2 if q else 3))
     cfgp = ctx.path("MC_MemAlloc.cfg")
-    open(cfgp, "w").write(cfg)
-    mc = vlib.tlc("MC_MemAlloc", cfgp, ctx.path("mc"), workers=vlib.NCPU, timeout=300 if q else 1500, coverage=False)
+    open(cfgp, "w").write(cfg.replace("MaxMut = 3", "MaxMut = 2"))
+    mc = vlib.tlc("MC_MemAlloc", cfgp, ctx.path("mc"), workers=vlib.NCPU, timeout=1500, coverage=False)
     if not mc["ok"]:
         raise vlib.Inconclusive("design model check did not pass: violated=%s error=%s\n%s" %
                                 (mc["violated"], mc["error"], mc["out"][-3000:]))
+    deep = None
+    if not q:
+        cfgd = ctx.path("MC_MemAlloc_deep.cfg")
+        open(cfgd, "w").write("\n".join(l for l in cfg.splitlines() if not l.startswith(("SYMMETRY", "VIEW"))) + "\n")
+        deep = vlib.tlc("MC_MemAlloc", cfgd, ctx.path("mcdeep"), workers=vlib.NCPU, timeout=1800, coverage=False,
+                        simulate="num=%d" % 600, depth=14, seed=ctx.seed)
+        if deep["violated"] or not deep["ok"]:
+            raise vlib.Inconclusive("design simulation (MaxMut = 3) did not pass: violated=%s error=%s\n%s" %
+                                    (deep["violated"], deep["error"], deep["out"][-3000:]))
 
     # 2./3. drivers and replay -----------------------------------------------------------------
     hs = sim_histories(ctx, 40 if q else 400, 12 if q else 16, ctx.seed)
@@ -176,7 +187,9 @@ def run(ctx):
 
     sample_lines = [json.loads(l) for l in open(t_all).read().splitlines()[1:3]]
     cov = {"states": mc["distinct"], "transitions": mc["generated"], "design_depth": mc["depth"],
-           "design_config": "MC_MemAlloc: 2 layouts x 3 ids x 5 request templates, <=%d mutations, <=1 outstanding offer, VIEW+symmetry" % (2 if q else 3),
+           "design_deep_simulation": ({"config": "MaxMut = 3, 600 behaviours of depth 14 per worker", "generated": deep["generated"]}
+                                      if deep else None),
+           "design_config": "MC_MemAlloc: 2 layouts x 3 ids x 5 request templates, <=2 mutations, <=1 outstanding offer, VIEW+symmetry (exhaustive)",
            "traces_validated_against_impl": nhist, "trace_events": consumed,
            "model_generated_histories": len(hs), "random_histories": nh,
            "distinct_nontrivial": st["distinct_states"], "evaluations": consumed,
